@@ -74,6 +74,16 @@ def shapes(tier, seed):
                   ("sel", ("join", b, ("leaf", "T"), None), K2), ("join", ("dedup", b), Xs, None)):
             pid.append((b, n))
     out += [{"kind": "identity", "pairs": pid[i:i + 15], "payloads": True} for i in range(0, len(pid), 15)]
+    # materializations of statically trivial relations (empty windows, doomed leaves, the join identity) between transfers are locked
+    # like any other: a round trip across them is not undone and later calls keep the node
+    triv = []
+    for inner in (("slice", Xl, 0, 0), ("sel", Xl, ("plit", False)), ("dedup", ("proj", ("slice", Xl, 0, 1), ())), ("slice", ("xfer", Sl, "it1"), 2, 2)):
+        for there, back in (("it2", "it1"), ("sq", "it1")):
+            b = ("mat", ("xfer", inner, there), "mt")
+            for n in (("xfer", b, back), ("xfer", ("xfer", b, "it2" if there == "sq" else "sq"), back), ("sel", b, K2, (back, True, True, False)),
+                      ("dedup", b, (back, True, True, False)), ("proj", b, (), (back, True, False, False)), ("mat", b, "again"), ("chain", b, b)):
+                triv.append((b, n))
+    out += [{"kind": "identity", "pairs": triv[i:i + 20]} for i in range(0, len(triv), 20)]
     # the same with explicitly named materializations after an equal-but-distinct twin tree has been built
     twins = [_named(p) for b, p in ident if "mat" in repr(p) and ("xfer" in repr(p) or p[-1])][::2]
     twins = [(p[1], p) for p in twins]
